@@ -19,17 +19,65 @@ MONITORS = {"_create_splicer": ("m_splicer_emit", gs_inputs), "get_splicers": ("
                 {"line": v["line"], "indent": 1, "linelen": 5} if isinstance(v.get("line"), str) else None))}
 
 
+def yaml_splicer_files(ctx):
+    """C12/S1 (judgement on the real source): a splicer file listed in the YAML under a language key (c, f, py, lua) is
+    read into the store of THAT key: main_with_args loops over the keys, takes splicers.setdefault(<key>, {}) and hands
+    exactly that dict to splicer.get_splicers for every file of the key."""
+    import ast
+    import os
+    from checklib import REPO
+    tree = ast.parse(open(os.path.join(REPO, "shroud/main.py")).read())
+    f = [n for n in tree.body if isinstance(n, ast.FunctionDef) and n.name == "main_with_args"][0]
+    ok, why = False, "no loop over allinput['splicer'] found"
+    for loop in ast.walk(f):
+        if isinstance(loop, ast.For) and "allinput['splicer']" in ast.unparse(loop.iter).replace('"', "'") \
+                and isinstance(loop.target, ast.Name):
+            key = loop.target.id
+            store = None
+            for n in ast.walk(loop):
+                if isinstance(n, ast.Assign) and len(n.targets) == 1 and isinstance(n.targets[0], ast.Name) \
+                        and ast.unparse(n.value).replace('"', "'") == "splicers.setdefault(%s, {})" % key:
+                    store = n.targets[0].id
+            calls = [n for n in ast.walk(loop) if isinstance(n, ast.Call) and ast.unparse(n.func).startswith("splicer.")]
+            why = "key loop variable %r, store variable %r, reader calls %r" % (key, store, [ast.unparse(c) for c in calls])
+            ok = store is not None and len(calls) >= 1 and all(
+                ast.unparse(c.func) == "splicer.get_splicers" and len(c.args) == 2 and ast.unparse(c.args[1]) == store for c in calls)
+    ctx.item("C12/S1/main_with_args:yaml-splicer-files-by-key", ok,
+             "files listed under `splicer: <key>:` must be read into splicers[<key>] whatever their names: " + why,
+             confirm=lambda: ctx.monitor("m_splicer_e2e", "search", 10, ctx.seed))
+
+
 def run(ctx):
-    ctx.pyvc([create_splicer, get_splicers, write_continue_plain, user_line_identity_carved, user_line_identity], MONITORS)
+    from contracts import wrapf_splicer
+    mons = dict(MONITORS)
+    mons.update(dict((u.name, ("m_splicer_e2e", gs_inputs, lambda nm: None, 10)) for u in wrapf_splicer.UNITS))
+    ctx.pyvc([create_splicer, get_splicers, write_continue_plain, user_line_identity_carved, user_line_identity] + wrapf_splicer.UNITS, mons)
+    yaml_splicer_files(ctx)
+    # bounded stand-ins (never counted as proved): reader on whole-block orders; end-to-end round trip of every block
+    for mon, n, kind in (("m_get_splicers", 1500, "real get_splicers against a reference reader: every order of 2-3 blocks over "
+                                                 "6 dotted tags, all files of <= 3 marker/text lines, random files"),
+                         ("m_splicer_e2e", 10, "3 libraries (nested namespaces, classes with overloads and defaults, a C "
+                                               "library) x splicer files on the command line / listed in the YAML by key: one "
+                                               "unique line per block of every generated C and Fortran file comes back in exactly "
+                                               "that block; one namespace scope per module file")):
+        r = ctx.monitor(mon, "search", n, ctx.seed)
+        ctx.bounded.append({"monitor": mon, "kind": "bounded: " + kind, "inputs_tried": r["tried"], "violation": r["violation"]})
+        if r["violation"]:
+            k = ctx.known_open("bounded/" + mon + ":" + str(r["violation"]))
+            if k:
+                ctx.report_known(k)
+            else:
+                ctx.violation("bounded/" + mon, {"inputs": r["inputs"], "observed": r["violation"]}, True)
     ctx.trusted += [
         "pyvc, z3 5.1, cvc5 1.0.3; Python str/list semantics of DESIGN 2.1",
-        "nested-dict navigation of get_splicers abstracted (class Tree): the store event is specified, the tree shape is not",
+        "nested-dict store of get_splicers as class Tree with a ghost dotted path per node (setdefault(k) -> path + k + '.'); "
+        "str.split reconstruction s == pieces joined by the separator (prefix function SPLITPRE)",
         "str.split(): first field / last dotted piece as uninterpreted functions; rstrip as in C13",
         "open()/readlines(): file content is an arbitrary list of strings",
     ]
     ctx.not_covered += [
-        "correspondence between the reader's nested-dict path for tag a.b.c and the emitters' splicer_stack after "
-        "_push_splicer (tree-shaped heap property): bounded monitor only",
+        "correspondence between the reader's path for tag a.b.c and the emitters' splicer_stack after _push_splicer: "
+        "end-to-end bounded monitor only (m_splicer_e2e); Wrapf.wrap_namespace proved for 0-2 nested namespaces",
         "precedence of command-line splicer files / YAML splicer / splicer_code in main_with_args",
         "ast.listify",
     ]
